@@ -335,8 +335,60 @@ pub fn run(tier: &str) -> i32 {
             }
         }
     }, Acc::merge);
-    rep.states = res.acc.nontrivial;
-    rep.transitions = res.acc.nontrivial + b.transitions;
+    let mut res = res;
+    // ---- the validate command itself as the other side (its loader is not the one behind test and the library): number and
+    //      scalar spellings x type-sensitive rules; test must report the statuses validate prints, met / unmet accordingly
+    let mut vt = 0u64;
+    {
+        let texts = ["1e5", "2.5E-3", "1e22", "1E+2", "1.5", "-2", "0", "-0.0", "9223372036854775808", "\"1e5\"", "true", "null", "[1e5, 2]", "{\"k\": 1.0e0}"];
+        let rules = "rule f { a is_float }\nrule i { a is_int }\nrule s { a is_string }\nrule g { a > 1.0 }\nrule l { some a[*] is_float }\nrule k { a.k is_float }\n";
+        let names = ["f", "i", "s", "g", "l", "k"];
+        let rp = put("c16v/x.guard", rules);
+        for t in texts {
+            let doc = format!("{{\"a\": {}}}", t);
+            let dp = put("c16v/d.json", &doc);
+            let vo = cli_inproc(&sv(&["validate", "-r", &rp, "-d", &dp, "-S", "all"]), "");
+            let table = crate::report::parse_plain(&vo.out, "sls");
+            let mut vst: BTreeMap<String, &str> = BTreeMap::new();
+            for tb in &table.tables {
+                for n in &tb.pass {
+                    vst.insert(n.clone(), "PASS");
+                }
+                for n in &tb.fail {
+                    vst.insert(n.clone(), "FAIL");
+                }
+                for n in &tb.skip {
+                    vst.insert(n.clone(), "SKIP");
+                }
+            }
+            if vst.len() != names.len() {
+                continue; // validate raised an error on this input: nothing to compare
+            }
+            for flip in [None, Some(0usize), Some(3)] {
+                let exp: Vec<String> = names.iter().enumerate().map(|(k, n)| {
+                    let st = vst[*n];
+                    let e = if flip == Some(k) { if st == "PASS" { "FAIL" } else { "PASS" } } else { st };
+                    format!("\"{}\": \"{}\"", n, e)
+                }).collect();
+                let tf = format!("[{{\"name\": \"t\", \"input\": {}, \"expectations\": {{\"rules\": {{{}}}}}}}]", doc, exp.join(", "));
+                let tp = put("c16v/x_tests.json", &tf);
+                for fmt in [vec![], vec!["-o", "json"], vec!["-o", "junit"]] {
+                    let mut argv = sv(&["test", "-r", &rp, "-t", &tp]);
+                    argv.extend(sv(&fmt));
+                    let o = cli_inproc(&argv, "");
+                    vt += 1;
+                    res.acc.traces += 1;
+                    let want = if flip.is_some() { 7 } else { 0 };
+                    if o.panic.is_some() || o.status() != want {
+                        res.acc.violate(&format!("test-vs-validate-command:{}", if flip.is_some() { "unmet-not-reported" } else { "met-reported-unmet" }), format!("input {}: validate prints {:?}; test with {} exits {} (expected {}) | {}", doc, vst, if flip.is_some() { "one expectation flipped" } else { "exactly these expectations" }, o.status(), want, o.out.lines().filter(|l| l.contains("Expected")).take(3).collect::<Vec<_>>().join(" / ")), json!({"kind":"cli","argv":argv,"stdin":"","files":{"x.guard":rules,"x_tests.json":tf,"d.json":doc},"expected":format!("exit {}", want),"observed":format!("exit {}", o.status())}));
+                    }
+                }
+            }
+        }
+    }
+    rep.extra.insert("test_vs_validate_command_runs".into(), json!(vt));
+    rep.states = res.acc.nontrivial + vt;
+    rep.transitions = res.acc.nontrivial + b.transitions + vt;
     if res.capped {
         rep.caps_hit.push(format!("wall-clock cap: {} of {} (program, suite, assignment) states", res.done, n));
     }
